@@ -40,6 +40,42 @@ import (
 )
 
 const c11FindingProxyFallback = "C11-proxy-apiversions-no-v0-fallback"
+const c11FindingBackendError = "C11-proxy-backend-error-no-reply"
+
+// c11ProxyOwnPath: keys the proxy answers itself or routes through its produce/fetch code,
+// whose backend-error reply is built from the request BODY (correct). Every other key goes
+// through the pass-through / group-routing paths of the listed finding.
+func c11ProxyOwnPath(key int16) bool {
+	switch key {
+	case 0, 1, 3, 10, 18:
+		return true
+	}
+	return false
+}
+
+// c11StartProxy starts a real proxy on loopback and waits until it accepts connections.
+func c11StartProxy(ctx context.Context, backends []string, store metadata.Store, lfs *lfsModule) (string, error) {
+	return vfc11kit.StartServer(func(addr string) <-chan error {
+		p := &proxy{
+			addr: addr, advertisedHost: "proxy.example", advertisedPort: 9092,
+			store: store, backends: backends, logger: slog.New(slog.NewTextHandler(io.Discard, nil)),
+			dialTimeout: 2 * time.Second, cacheTTL: time.Hour, apiVersions: generateProxyApiVersions(),
+			brokerAddrs: make(map[string]string), topicNames: make(map[[16]byte]string),
+			backendRetries: 1, backendBackoff: time.Millisecond, lfs: lfs,
+		}
+		p.setCachedBackends(p.backends)
+		p.touchHealthy()
+		p.setReady(true)
+		p.refreshMetadataCache(ctx)
+		errc := make(chan error, 1)
+		go func() {
+			if err := p.listenAndServe(ctx); err != nil {
+				errc <- err
+			}
+		}()
+		return errc
+	})
+}
 
 type c11Backend struct{}
 
@@ -196,71 +232,43 @@ func TestVF_C11_Proxy(t *testing.T) {
 
 	ctx, cancel := context.WithCancel(context.Background())
 	defer cancel()
-	backendAddr, err := vfc11kit.PickPort()
-	if err != nil {
-		fail("cannot reserve a loopback port: %v", err)
+	startBroker := func(h broker.Handler) (string, error) {
+		return vfc11kit.StartServer(func(addr string) <-chan error {
+			srv := &broker.Server{Addr: addr, Handler: h}
+			errc := make(chan error, 1)
+			go func() {
+				if err := srv.ListenAndServe(ctx); err != nil {
+					errc <- err
+				}
+			}()
+			return errc
+		})
 	}
-	back := &broker.Server{Addr: backendAddr, Handler: c11Backend{}}
-	go func() { _ = back.ListenAndServe(ctx) }()
-	if c, err := vfc11kit.DialRetry(backendAddr); err != nil {
+	backendAddr, err := startBroker(c11Backend{})
+	if err != nil {
 		fail("backend did not come up: %v", err)
-	} else {
-		_ = c.Close()
-	}
-	proxyAddr, err := vfc11kit.PickPort()
-	if err != nil {
-		fail("cannot reserve a loopback port: %v", err)
 	}
 	host, port := "127.0.0.1", int32(portFromAddr(backendAddr, 0))
-	p := &proxy{
-		addr:           proxyAddr,
-		advertisedHost: "proxy.example",
-		advertisedPort: 9092,
-		store:          metadata.NewInMemoryStore(c11ProxyMetadata(host, port)),
-		backends:       []string{backendAddr},
-		logger:         slog.New(slog.NewTextHandler(io.Discard, nil)),
-		dialTimeout:    5 * time.Second,
-		cacheTTL:       time.Hour,
-		apiVersions:    generateProxyApiVersions(),
-		brokerAddrs:    make(map[string]string),
-		topicNames:     make(map[[16]byte]string),
-		backendRetries: 2,
-		backendBackoff: time.Millisecond,
-	}
-	p.setCachedBackends(p.backends)
-	p.touchHealthy()
-	p.setReady(true)
-	p.refreshMetadataCache(ctx)
-	go func() { _ = p.listenAndServe(ctx) }()
-	if c, err := vfc11kit.DialRetry(proxyAddr); err != nil {
+	proxyAddr, err := c11StartProxy(ctx, []string{backendAddr}, metadata.NewInMemoryStore(c11ProxyMetadata(host, port)), nil)
+	if err != nil {
 		fail("proxy did not come up: %v", err)
-	} else {
-		_ = c.Close()
 	}
 	// the same proxy with the LFS module enabled (every produced batch is decoded for LFS_BLOB headers)
-	lfsAddr, err := vfc11kit.PickPort()
+	lfsAddr, err := c11StartProxy(ctx, []string{backendAddr}, metadata.NewInMemoryStore(c11ProxyMetadata(host, port)), c11LfsModule())
 	if err != nil {
-		fail("cannot reserve a loopback port: %v", err)
-	}
-	pl := &proxy{
-		addr: lfsAddr, advertisedHost: "proxy.example", advertisedPort: 9092,
-		store:    metadata.NewInMemoryStore(c11ProxyMetadata(host, port)),
-		backends: []string{backendAddr}, logger: slog.New(slog.NewTextHandler(io.Discard, nil)),
-		dialTimeout: 5 * time.Second, cacheTTL: time.Hour, apiVersions: generateProxyApiVersions(),
-		brokerAddrs: make(map[string]string), topicNames: make(map[[16]byte]string),
-		backendRetries: 2, backendBackoff: time.Millisecond, lfs: c11LfsModule(),
-	}
-	pl.setCachedBackends(pl.backends)
-	pl.touchHealthy()
-	pl.setReady(true)
-	pl.refreshMetadataCache(ctx)
-	go func() { _ = pl.listenAndServe(ctx) }()
-	if c, err := vfc11kit.DialRetry(lfsAddr); err != nil {
 		fail("LFS-enabled proxy did not come up: %v", err)
-	} else {
-		_ = c.Close()
 	}
-
+	// the same proxy, ready, but no backend accepts connections (the port is bound, never listened on)
+	deadBackend, releaseDead, err := vfc11kit.DeadPort()
+	if err != nil {
+		fail("cannot reserve a refusing port: %v", err)
+	}
+	defer releaseDead()
+	deadAddr, err := c11StartProxy(ctx, []string{deadBackend}, metadata.NewInMemoryStore(c11ProxyMetadata(host, port)), nil)
+	if err != nil {
+		fail("proxy with unreachable backend did not come up: %v", err)
+	}
+	knownBackendErr := vfkit.Known(c11FindingBackendError)
 	env := &vfc10gen.Env{
 		Bounded: true,
 		Topics:  []string{"orders", "payments", "orders", "no-such-topic"},
@@ -280,10 +288,15 @@ func TestVF_C11_Proxy(t *testing.T) {
 		if inconclusive != "" {
 			t.Skip(inconclusive)
 		}
-		lfsMode := rapid.IntRange(0, 2).Draw(t, "lfs-enabled") == 0
+		variant := rapid.IntRange(0, 3).Draw(t, "proxy-variant")
+		lfsMode := variant == 0
+		deadMode := variant == 1
 		target, mode := proxyAddr, "plain"
 		if lfsMode {
 			target, mode = lfsAddr, "lfs"
+		}
+		if deadMode {
+			target, mode = deadAddr, "backend-down"
 		}
 		conn, err := vfc11kit.DialRetry(target)
 		if err != nil {
@@ -341,6 +354,12 @@ func TestVF_C11_Proxy(t *testing.T) {
 				pr.Version, pr.Class, pr.Advertised = r[1], "advertised", true
 				pr.Req.SetVersion(pr.Version)
 			}
+			if deadMode && knownBackendErr && !c11ProxyOwnPath(pr.Key) && pr.Advertised {
+				// listed finding: on the pass-through / group paths the backend-error reply is built from
+				// the whole frame instead of the body, the parse fails and nothing is written
+				st.ExcludedCase(c11FindingBackendError)
+				continue
+			}
 			pr.Encode()
 			out := vfc11kit.Exchange(conn, pr, 60*time.Second)
 			st.Class("class:" + pr.Class)
@@ -391,6 +410,81 @@ func TestVF_C11_Proxy(t *testing.T) {
 	if inconclusive != "" {
 		t.Fatalf("inconclusive: %s", inconclusive)
 	}
+}
+
+// TestVF_C11_ProxyWitnessBackendDown: ListOffsets v4 and OffsetCommit v3 through a ready proxy
+// whose only backend refuses connections.
+func TestVF_C11_ProxyWitnessBackendDown(t *testing.T) {
+	st := vfkit.NewStats("C11", "proxy-witness-backend-down")
+	defer st.Flush()
+	st.Eval()
+	log.SetOutput(io.Discard)
+	ctx, cancel := context.WithCancel(context.Background())
+	defer cancel()
+	tb := vfc11kit.NewTable(generateProxyApiVersions())
+	dead, releaseDead, err := vfc11kit.DeadPort()
+	if err != nil {
+		fmt.Println("VF-INCONCLUSIVE: cannot reserve a refusing port:", err)
+		t.Fatalf("port: %v", err)
+	}
+	defer releaseDead()
+	addr, err := c11StartProxy(ctx, []string{dead}, metadata.NewInMemoryStore(c11ProxyMetadata("127.0.0.1", 1)), nil)
+	if err != nil {
+		fmt.Println("VF-INCONCLUSIVE: proxy did not come up:", err)
+		t.Fatalf("proxy: %v", err)
+	}
+	lo := kmsg.NewPtrListOffsetsRequest()
+	lo.SetVersion(4)
+	lo.ReplicaID = -1
+	lt := kmsg.NewListOffsetsRequestTopic()
+	lt.Topic = "orders"
+	lp := kmsg.NewListOffsetsRequestTopicPartition()
+	lp.Partition, lp.Timestamp = 0, -1
+	lt.Partitions = append(lt.Partitions, lp)
+	lo.Topics = append(lo.Topics, lt)
+	oc := kmsg.NewPtrOffsetCommitRequest()
+	oc.SetVersion(3)
+	oc.Group = "g"
+	ot := kmsg.NewOffsetCommitRequestTopic()
+	ot.Topic = "orders"
+	op := kmsg.NewOffsetCommitRequestTopicPartition()
+	op.Partition, op.Offset = 0, 5
+	ot.Partitions = append(ot.Partitions, op)
+	oc.Topics = append(oc.Topics, ot)
+	var fails []string
+	for i, req := range []kmsg.Request{lo, oc} {
+		pr := &vfc11kit.Probe{Key: req.Key(), Version: req.GetVersion(), Class: "advertised", Advertised: true, Req: req, Corr: int32(100 + i), ClientID: "vf-witness", Shape: &vfc10gen.Shape{}}
+		pr.Encode()
+		conn, err := vfc11kit.DialRetry(addr)
+		if err != nil {
+			fmt.Println("VF-INCONCLUSIVE: cannot connect to the proxy:", err)
+			t.Fatalf("dial: %v", err)
+		}
+		out := vfc11kit.Exchange(conn, pr, 60*time.Second)
+		_ = conn.Close()
+		switch out.Kind {
+		case "reply", "reply-then-closed":
+			if msg, _ := vfc11kit.JudgeReply(pr, tb, out.Reply); msg != "" {
+				fails = append(fails, pr.Name()+": "+msg)
+			}
+		default:
+			fails = append(fails, fmt.Sprintf("%s: %s (no reply)", pr.Name(), out.Kind))
+		}
+	}
+	still := len(fails) > 0
+	what := "ready proxy, backend refuses connections: "
+	if still {
+		what += strings.Join(fails, "; ") + " - respondBackendError gets frame.Payload (header+body) instead of body at the pass-through / group-routing call sites, the parse fails and nothing is written"
+	} else {
+		what += "ListOffsets v4 and OffsetCommit v3 answered with decodable replies"
+	}
+	st.KnownResult(c11FindingBackendError, still, what)
+	if still && !vfkit.Known(c11FindingBackendError) {
+		t.Fatalf("finding %s is not listed as known and reproduces: %s", c11FindingBackendError, what)
+	}
+	st.NonTrivial("proxy-witness-backend-down", still)
+	st.Sample(map[string]any{"result": what})
+	t.Log(what)
 }
 
 // TestVF_C11_ProxyWitness replays the witness of the listed proxy finding through the real
